@@ -168,9 +168,11 @@ impl Prop for C13 {
             2 => (year.clone(), -10..=0i64).prop_map(|(y, o)| gen::clamp_date(gen::ymd(y, 2, 15) + chrono::Duration::days(o))),
             3 => (0..gen::n_dates()).prop_map(gen::date_from_index),
         ];
-        (gen::site(45.0, 3.0), gen::pick(&gen::ANGLE_METHODS), start, 3u32..=30)
-            .prop_map(|(site, method, start, len)| Case { site, method, start, len })
-            .boxed()
+        let general = (gen::site(45.0, 3.0), gen::pick(&gen::ANGLE_METHODS), start, 3u32..=30).prop_map(|(site, method, start, len)| Case { site, method, start, len });
+        // histories centred on a day whose local midnight is within minutes of the RA wrap (site constructed for it)
+        let directed = (gen::ra_wrap_site_date(45.0, 3.0, 12.0), gen::pick(&gen::ANGLE_METHODS), 2i64..=4, 5u32..=9)
+            .prop_map(|((site, date), method, back, len)| Case { site, method, start: gen::clamp_date(date - chrono::Duration::days(back)), len });
+        prop_oneof![5 => general, 1 => directed].boxed()
     }
     fn max_shrink_iters(&self) -> u32 {
         1500
